@@ -237,6 +237,9 @@ func (c *Client) ConsensusParams(ctx context.Context, height *int64) (*ctypes.Re
 	if res.BlockHeight <= 0 {
 		return nil, errNegOrZeroHeight
 	}
+	if height != nil && res.BlockHeight != *height {
+		return nil, fmt.Errorf("params are for height %d, not for the requested height %d", res.BlockHeight, *height)
+	}
 
 	// Update the light client if we're behind.
 	l, err := c.updateLightClientIfNeededTo(ctx, &res.BlockHeight)
@@ -315,6 +318,9 @@ func (c *Client) Block(ctx context.Context, height *int64) (*ctypes.ResultBlock,
 	if err := res.Block.ValidateBasic(); err != nil {
 		return nil, err
 	}
+	if height != nil && res.Block.Height != *height {
+		return nil, fmt.Errorf("block is for height %d, not for the requested height %d", res.Block.Height, *height)
+	}
 	if bmH, bH := res.BlockID.Hash, res.Block.Hash(); !bytes.Equal(bmH, bH) {
 		return nil, fmt.Errorf("blockID %X does not match with block %X",
 			bmH, bH)
@@ -330,6 +336,11 @@ func (c *Client) Block(ctx context.Context, height *int64) (*ctypes.ResultBlock,
 	if bH, tH := res.Block.Hash(), l.Hash(); !bytes.Equal(bH, tH) {
 		return nil, fmt.Errorf("block header %X does not match with trusted header %X",
 			bH, tH)
+	}
+	// The verified commit signs the whole block id, part-set header included.
+	if !res.BlockID.PartSetHeader.Equals(l.Commit.BlockID.PartSetHeader) {
+		return nil, fmt.Errorf("block id %v does not match with trusted block id %v",
+			res.BlockID, l.Commit.BlockID)
 	}
 
 	return res, nil
@@ -349,6 +360,9 @@ func (c *Client) BlockByHash(ctx context.Context, hash []byte) (*ctypes.ResultBl
 	if err := res.Block.ValidateBasic(); err != nil {
 		return nil, err
 	}
+	if !bytes.Equal(res.BlockID.Hash, hash) {
+		return nil, fmt.Errorf("block %X is not the requested block %X", res.BlockID.Hash, hash)
+	}
 	if bmH, bH := res.BlockID.Hash, res.Block.Hash(); !bytes.Equal(bmH, bH) {
 		return nil, fmt.Errorf("blockID %X does not match with block %X",
 			bmH, bH)
@@ -364,6 +378,11 @@ func (c *Client) BlockByHash(ctx context.Context, hash []byte) (*ctypes.ResultBl
 	if bH, tH := res.Block.Hash(), l.Hash(); !bytes.Equal(bH, tH) {
 		return nil, fmt.Errorf("block header %X does not match with trusted header %X",
 			bH, tH)
+	}
+	// The verified commit signs the whole block id, part-set header included.
+	if !res.BlockID.PartSetHeader.Equals(l.Commit.BlockID.PartSetHeader) {
+		return nil, fmt.Errorf("block id %v does not match with trusted block id %v",
+			res.BlockID, l.Commit.BlockID)
 	}
 
 	return res, nil
@@ -393,6 +412,9 @@ func (c *Client) BlockResults(ctx context.Context, height *int64) (*ctypes.Resul
 	// Validate res.
 	if res.Height <= 0 {
 		return nil, errNegOrZeroHeight
+	}
+	if res.Height != h {
+		return nil, fmt.Errorf("results are for height %d, not for the requested height %d", res.Height, h)
 	}
 
 	// Update the light client if we're behind.
@@ -463,6 +485,9 @@ func (c *Client) Tx(ctx context.Context, hash []byte, prove bool) (*ctypes.Resul
 	}
 	if int64(res.Index) != res.Proof.Proof.Index {
 		return nil, errors.New("index does not match the proven position")
+	}
+	if !bytes.Equal(res.Hash, hash) {
+		return nil, errors.New("the proven transaction is not the requested one")
 	}
 
 	return res, nil
